@@ -2,6 +2,7 @@ package main
 
 import (
 	"context"
+	"errors"
 	"fmt"
 	"os"
 	"runtime"
@@ -16,7 +17,10 @@ import (
 	"verif/harness/internal/hx"
 )
 
-const stepTimeout = 8 * time.Second
+// the bound of every wait for a step of a schedule; a case that does not complete is re-run with larger bounds
+const baseStepTimeout = 8 * time.Second
+
+var stepTimeout = baseStepTimeout
 
 var srvConfig = server.Config{NotificationsRetentionTime: time.Hour}
 
@@ -331,6 +335,11 @@ func runLeaderCase(o *hx.Out, p params) (string, int64) {
 // controllerFailed: NewTerm / BecomeLeader (= the replay of the log from the DB's commit offset) returned an
 // error on a state that the schedule reached legitimately: the log cannot be applied.
 func controllerFailed(o *hx.Out, p params, where string, err error) {
+	if errors.Is(err, context.DeadlineExceeded) || strings.Contains(err.Error(), "deadline exceeded") {
+		// the bound the harness put on the call expired: a matter of time, handled like a step that does not complete
+		reportStuck(o, p, where+" does not complete within the harness's bound: "+err.Error())
+		return
+	}
 	o.Violation("crash:entry-skipped", fmt.Sprintf("%s %s: %s cannot be started / cannot replay its log: %v", p.leg, p.String(), where, err))
 }
 
@@ -342,9 +351,9 @@ func reportStuck(o *hx.Out, p params, what string) {
 	pendingStuck = p.leg + " " + p.String() + ": " + what
 }
 
-// A step that does not complete within its (generous) time limit is only reported if it does not complete in a
-// second execution of the same case either: the verdict "does not complete" depends on wall-clock time, unlike
-// all the others, and must not be raised by a machine that was busy for a few seconds.
+// A step that does not complete within its time limit is only reported if the same case does not complete in any of
+// three executions with growing limits (x1, x4, x10), and the machine is not starved at that moment: the verdict
+// "does not complete" depends on wall-clock time, unlike all the others.
 var pendingStuck string
 
 // checkLive: every application before the crash must have happened at commit+1.
